@@ -324,3 +324,106 @@ func c01Builders(r *core.Report) {
 		}
 	})
 }
+
+// c13IndexSpace: positions recorded while ranging over one list are positions in that list.
+func c13IndexSpace(r *core.Report) {
+	p := r.Prog
+	info := p.Pkg("openapi3").TypesInfo
+	r.RunRule("C13.indexspace", "a recorded position is used on the list it was taken from: wherever package openapi3 collects the key variable of `for i := range A` into a list of positions (`idxs = append(idxs, i)`), every later use of an element of that list as an index (`B[idxs[k]]`) is on the same list A — the branch of a oneOf that is visited a second time on the real value, to inject its defaults, is found that way, and positions taken from a filtered copy of the branches (the one a discriminator selects) point at another branch of the full list, whose defaults are then written into the forwarded body", 1, func() {
+		n := 0
+		for _, d := range p.AllDecls("openapi3") {
+			if d.Body == nil {
+				continue
+			}
+			// position lists: object -> text of the ranged list
+			lists := map[types.Object]string{}
+			scalars := map[types.Object]string{}
+			ast.Inspect(d.Body, func(nd ast.Node) bool {
+				rs, ok := nd.(*ast.RangeStmt)
+				if !ok || rs.Key == nil {
+					return true
+				}
+				kid, ok := rs.Key.(*ast.Ident)
+				if !ok || kid.Name == "_" {
+					return true
+				}
+				if _, isSlice := info.TypeOf(rs.X).Underlying().(*types.Slice); !isSlice {
+					return true
+				}
+				kobj := info.ObjectOf(kid)
+				ast.Inspect(rs.Body, func(m ast.Node) bool {
+					as, ok := m.(*ast.AssignStmt)
+					if !ok || len(as.Lhs) != 1 || len(as.Rhs) != 1 {
+						return true
+					}
+					// a single position kept in a variable: `matched = i`
+					if rid, ok := ast.Unparen(as.Rhs[0]).(*ast.Ident); ok && info.ObjectOf(rid) == kobj && as.Tok == token.ASSIGN {
+						if lid, ok := ast.Unparen(as.Lhs[0]).(*ast.Ident); ok {
+							scalars[info.ObjectOf(lid)] = core.ExprStr(rs.X)
+						}
+						return true
+					}
+					c, ok := ast.Unparen(as.Rhs[0]).(*ast.CallExpr)
+					if !ok || len(c.Args) < 2 {
+						return true
+					}
+					if fid, ok := c.Fun.(*ast.Ident); !ok || fid.Name != "append" {
+						return true
+					}
+					lid, ok := ast.Unparen(as.Lhs[0]).(*ast.Ident)
+					if !ok {
+						return true
+					}
+					for _, a := range c.Args[1:] {
+						if aid, ok := ast.Unparen(a).(*ast.Ident); ok && info.ObjectOf(aid) == kobj {
+							lists[info.ObjectOf(lid)] = core.ExprStr(rs.X)
+						}
+					}
+					return true
+				})
+				return true
+			})
+			if len(lists) == 0 && len(scalars) == 0 {
+				continue
+			}
+			perFn := 0
+			ast.Inspect(d.Body, func(nd ast.Node) bool {
+				ix, ok := nd.(*ast.IndexExpr)
+				if !ok {
+					return true
+				}
+				if sid, ok := ast.Unparen(ix.Index).(*ast.Ident); ok {
+					if from, isScalar := scalars[info.ObjectOf(sid)]; isScalar {
+						if _, isSlice := info.TypeOf(ix.X).Underlying().(*types.Slice); isSlice {
+							n++
+							perFn++
+							key := fmt.Sprintf("indexspace:%s#%d", core.FuncName(d), perFn)
+							r.Check(core.ExprStr(ix.X) == from, key, p.Pos(ix.Pos()), "used on the list it was taken from", fmt.Sprintf("%s holds a position in %s and is used to index %s: the element found there is another one than the one that was recorded", sid.Name, from, core.ExprStr(ix.X)))
+						}
+					}
+					return true
+				}
+				inner, ok := ast.Unparen(ix.Index).(*ast.IndexExpr)
+				if !ok {
+					return true
+				}
+				lid, ok := ast.Unparen(inner.X).(*ast.Ident)
+				if !ok {
+					return true
+				}
+				from, isList := lists[info.ObjectOf(lid)]
+				if !isList {
+					return true
+				}
+				n++
+				perFn++
+				key := fmt.Sprintf("indexspace:%s#%d", core.FuncName(d), perFn)
+				r.Check(core.ExprStr(ix.X) == from, key, p.Pos(ix.Pos()), "used on the list it was taken from", fmt.Sprintf("%s holds positions in %s and is used to index %s: the element found there is another one than the one that was recorded (another branch of the oneOf is visited for its defaults)", lid.Name, from, core.ExprStr(ix.X)))
+				return true
+			})
+		}
+		if n == 0 {
+			core.Fail("no use of a recorded position found (visitXOFOperations' matchedOneOfIndices expected)")
+		}
+	})
+}
